@@ -129,7 +129,9 @@ pub fn c03(tier: &str, seed: u64, meta: &str) -> Report {
         }
         let s = sessions.get_mut(&(if very_long { u32::MAX } else { bits })).unwrap();
         if s.history.len() > 3000 { s.history.clear(); }
+        // the typed text is defined by the key codes alone: the modifier byte (shifted letters have codes of their own) is arbitrary
         let mut evs = pr.key_events(&text, 0);
+        if i % 3 == 1 { for e in evs.iter_mut() { if let SEv::Key(k, _, sl) = e { *e = SEv::Key(*k, [1u8, 2, 3, 0x81, 0xFF][rng.below(5)], *sl); } } }
         evs.push(SEv::Finish);
         let steps = feed(w, s, &evs, rep, "C03");
         let last = &steps[steps.len() - 2];
@@ -161,7 +163,7 @@ pub fn c03(tier: &str, seed: u64, meta: &str) -> Report {
             }
         }
     });
-    rep.extra.insert("rule".into(), json!(format!("suggestions off: {} words x ALL pairs of (empty or one of the 27 punctuation characters) leading/trailing (exhaustive), {} random words with up to 3 punctuation characters on each side, compared with okkhor called directly on the three parts; suggestions on: {} texts (three quarters strings over the 94 typeable characters, one quarter dictionary-dense stems + suffix keys typed key by key so that lists of twenty and more candidates occur) every spelling among the auto-correct values whose transliteration holds a zero-width joiner, and for each of the dictionary words that hold a joiner a spelling (found by search over Avro letters) of its twin with the other joiner (bare and wrapped), and one very long word; the transliteration (curled when smart quotes apply) must be a candidate; option sets sampled from all combinations; non-trivial = wrapped text / more than one candidate", words.len(), n_a2, n_b)));
+    rep.extra.insert("rule".into(), json!(format!("suggestions off: {} words x ALL pairs of (empty or one of the 27 punctuation characters) leading/trailing (exhaustive), {} random words with up to 3 punctuation characters on each side, compared with okkhor called directly on the three parts; suggestions on: {} texts (three quarters strings over the 94 typeable characters, one quarter dictionary-dense stems + suffix keys typed key by key so that lists of twenty and more candidates occur) every spelling among the auto-correct values whose transliteration holds a zero-width joiner, and for each of the dictionary words that hold a joiner a spelling (found by search over Avro letters) of its twin with the other joiner (bare and wrapped), and one very long word; the transliteration (curled when smart quotes apply) must be a candidate; a third of the texts typed with arbitrary modifier bytes; option sets sampled from all combinations; non-trivial = wrapped text / more than one candidate", words.len(), n_a2, n_b)));
     rep
 }
 
@@ -202,7 +204,8 @@ pub fn c02(tier: &str, seed: u64, meta: &str) -> Report {
         let mut rng = Rng::new(seed ^ i.wrapping_mul(0xC02));
         let phonetic = i % 2 == 0;
         if phonetic {
-            let bits = 2 | (rng.below(2) as u32) | ((rng.chance(1, 4) as u32) << 2) | ((rng.below(2) as u32) << 3);
+            // one phonetic session in five has the candidate list off (single-string suggestions, also for keys without character)
+            let bits = (if i % 10 == 4 { 0 } else { 2 }) | (rng.below(2) as u32) | ((rng.chance(1, 4) as u32) << 2) | ((rng.below(2) as u32) << 3);
             let mut s = match psession(w, bits, true, None, None, "c02") { Ok(s) => s, Err(e) => { rep.diff(json!({"what": "context creation failed", "error": e})); return; } };
             let mut prev_len = 1usize;
             for t in word_pool(&fpr.p, &mut rng, words_per) {
@@ -210,7 +213,7 @@ pub fn c02(tier: &str, seed: u64, meta: &str) -> Report {
                 let t2 = if rng.chance(1, 3) { format!("{}{}", t, rng.pick(&ECHO.chars().collect::<Vec<_>>())) } else { t.clone() };
                 let mut evs: Vec<(SEv, Option<char>)> = Vec::new();
                 for c in t2.chars() { evs.push((SEv::Key(fpr.p.keys[&c], 0, 0), Some(c))); if rng.chance(1, 10) { evs.push((SEv::Back(false), None)); } }
-                if rng.chance(1, 8) { evs.push((SEv::Key(0x0E1C, 0, 0), None)); } // keypad Enter: no character
+                if rng.chance(1, 5) { evs.push((SEv::Key(0x0E1C, 0, 0), None)); } // keypad Enter: no character
                 for (mut e, ch) in evs {
                     let mut passed = 0u8;
                     if let SEv::Key(k, m, _) = e { passed = rng.below(prev_len.max(1)).min(255) as u8; e = SEv::Key(k, m, passed); }
@@ -504,6 +507,20 @@ pub fn c06(tier: &str, seed: u64, meta: &str) -> Report {
                 rep.fail(describe(used, "a backspace when idle does not return an empty suggestion / starts a session", json!(s.imp)));
             }
         }
+        // a key the layout knows nothing about (keypad "=" has a character but no entry; keypad Enter has neither; a
+        // keypad digit counts when the number-pad option is off) pressed while idle: empty suggestion, starts nothing -
+        // also when an idle backspace follows
+        if !phonetic && rng.chance(1, 2) {
+            let inert = [0x0E0Du16, 0x0E1C, 76][rng.below(3)];
+            if !(inert == 76 && bits & 32 != 0) {
+                let s = feed(w, used, &[SEv::Key(inert, 0, 0)], rep, "C06").pop().unwrap();
+                let empty = match &s.out { Out::Single { text, .. } => text.is_empty(), Out::Unit => true, _ => false };
+                if !empty || s.ongoing {
+                    rep.fail(describe(used, "a key without a value in the layout, pressed when idle, does not return an empty suggestion / starts a session (text of the finished word shown?)", json!(explain(&s.imp))));
+                }
+                if rng.chance(1, 2) { feed(w, used, &[SEv::Back(false)], rep, "C06"); }
+            }
+        }
         // 2. continuation in the used context and in a brand-new one
         let mut cont = word(&mut rng);
         if rng.chance(1, 3) { cont.push(SEv::Back(false)); cont.extend(word(&mut rng)); }
@@ -524,7 +541,7 @@ pub fn c06(tier: &str, seed: u64, meta: &str) -> Report {
         if rep.samples.len() < 2 && i % 499 == 1 { rep.sample(describe(used, "sample", json!(null))); }
         let _ = w.ask_db(true, &format!("DROP {}", fresh.id));
     });
-    rep.extra.insert("rule".into(), json!("cases = (method, options, a first word, one of the four terminating events {commit, finish, ctrl-backspace, backspaces until empty}, a continuation); phonetic: word pool; fixed: sequences over keys for left-standing signs, consonants, hasanta, fola, reph, punctuation with old vowel-sign order / suggestions / English mostly on; the continuation is replayed in the used context and in a brand-new one and must render identically; the session flag is read after every event; everything is also compared with the extracted model"));
+    rep.extra.insert("rule".into(), json!("cases = (method, options, a first word, one of the four terminating events {commit, finish, ctrl-backspace, backspaces until empty}, a continuation); phonetic: word pool; fixed: sequences over keys for left-standing signs, consonants, hasanta, fola, reph, punctuation with old vowel-sign order / suggestions / English mostly on; in the fixed method a key without a value in the layout (and an idle backspace) may follow the terminator; the continuation is replayed in the used context and in a brand-new one and must render identically; the session flag is read after every event; everything is also compared with the extracted model"));
     rep
 }
 
